@@ -288,8 +288,7 @@ def leb_index(R):
         for x in (lo, hi):
             ctx.assume(x >= 0)
             ctx.assume(x < 2 ** 32)
-        ctx.assume(hi >= 1)
-        out = leb.ChunkIO()
+        out = leb.ChunkIO()          # (a maximum of 0 is a maximum: `Memory(0, 0)` must not be written as "no maximum")
         stub = _LebCut()
         with _cut(stub):
             Memory(lo, hi).WriteTo(out)
@@ -298,7 +297,16 @@ def leb_index(R):
             return [("memory", z3.BoolVal(False))]
         return [("memory", z3.And(atoms[0] == 1, atoms[1].value == lo.t, atoms[2].value == hi.t)), ("leb-precondition", z3.And(*stub.requires))]
 
-    verify(R, "C19.leb.index", W + "::Memory.WriteTo", runm, label="memory-minmax")
+    def replaym(model, clause):
+        lo, hi = int(model.get("lo", 0)), int(model.get("hi", 0))
+        return script("""
+            import io, nsl.WebAssembly as W
+            out = io.BytesIO(); W.Memory({{lo}}, {{hi}}).WriteTo(out); bs = out.getvalue()
+            print('Memory(%d, %d) written as' % ({{lo}}, {{hi}}), bs.hex(), '; limits with a maximum are 01 <min> <max>')
+            if bs[0] != 1: print('REPLAY-CONFIRMED')
+            """, lo=lo, hi=hi)
+
+    verify(R, "C19.leb.index", W + "::Memory.WriteTo", runm, replaym, label="memory-minmax")
 
     def runm0(ctx):
         lo = ctx.int("lo")
